@@ -8,19 +8,25 @@
                         (CategoryFilter)
             o any other handler (also S) | N a null handler entry (TNull) | ( ... ) nested pipeline
             q Q RotatingFileSink with a 1000-byte limit (Q: its first rename is blocked) — like R for the model
-     msgs : items starting with f are explicit flush() calls between messages: ignored here (a flush changes no
-            content: C11_explicit_flush_changes_no_content), they take no id
+     msgs : items starting with f are explicit logger.flush() calls between messages (EFlush; they take no id);
+            reconfigurations between two messages (EOp; no id either), <path> = handler indices joined by '.',
+            empty = the logger itself:  +<path>:<handler>  append one handler (tree letters, may be a "( .. )")
+              ^<path>:F|R  sendToFile on that pipeline (same as + for the model)
+              ~<path>:<k>  remove the k-th handler | !<path>:  clearSinks() on that pipeline
      end  : fatal (qFatal after the messages, then abort) | kill (SIGKILL after the messages)
      msgs : - or comma separated <t><size>[*<count>], t in d w c i (qDebug qWarning qCritical qInfo)
             or m (the type of message number i is "diwc"[i mod 4]) or z (an info message logged while the device
             rejects writes, after a flush: the reject oracle of the model says the record is lost iff it is larger
             than QFile's chunk); size = bytes of the message text;
             a record is the text plus a newline; ids count from 0, the fatal message gets the next id
-     output, for every file sink in depth-first order, sinks separated by ';':
-            record ids as ranges a-b joined by ',' ; X for a B sink (no file)
+     output, for every file sink EVER CREATED, in creation order (= depth-first order of the tree, then the
+            sinks of appended handlers), separated by ';':
+            record ids as ranges a-b joined by ',' ; X for a B sink (no file); G for a sink that is no longer
+            part of the configuration when the process dies (removed: not a file sink of the logger any more)
    mode "model" (default): the files at process death according to the model with the translated source
+   mode "model-nth": the same with the source as compiled with -DQTLOGGER_NO_THREAD (src_fatal_cfg_nothread)
    mode "expected": what the property demands after qFatal (the specification [expected])
-   mode "oracle": the scenario fields, then '|', then the files found: 1 iff prop_c11_b
+   mode "oracle": the scenario fields, then '|', then the files found: 1 iff prop_c11_ev_b
    mode "cfg": prints cfg_goodb and flush_on_fatal of the translated source *)
 open Fatal_model
 let rec pos_of_int n = if n = 1 then XH else if n land 1 = 1 then XI (pos_of_int (n lsr 1)) else XO (pos_of_int (n lsr 1))
@@ -35,8 +41,11 @@ let flt_of c : (mtype * rec0) -> bool = fun (ty, r) ->
   | 'x' -> int_of_n r.rid land 1 = 1
   | 'l' -> (ty = Warning || ty = Critical || ty = Fatal)
   | _ -> true
-let parse_tree (s : string) : tree =
-  let next = ref 0 in
+(* sink ids are handed out in creation order: the tree first (depth-first), then the subtrees appended by
+   reconfiguration events, in the order of the events *)
+let next_sid = ref 0
+let parse_items (s : string) : tree list =
+  let next = next_sid in
   let pos = ref 0 in
   let rec items () =
     if !pos >= String.length s then [] else
@@ -52,9 +61,12 @@ let parse_tree (s : string) : tree =
         | 'N' -> TNull
         | _ -> TOther) in
       it :: items () in
-  TPipe (items ())
+  items ()
+let parse_tree (s : string) : tree = next_sid := 0; TPipe (parse_items s)
 let ty_of i = function 'd' -> Debug | 'w' -> Warning | 'c' -> Critical
   | 'm' -> (match i land 3 with 0 -> Debug | 1 -> Info | 2 -> Warning | _ -> Critical) | _ -> Info
+let is_op_item it = it <> "" && (it.[0] = '+' || it.[0] = '^' || it.[0] = '~' || it.[0] = '!')
+let is_msg_item it = it <> "" && it.[0] <> 'f' && not (is_op_item it)
 (* ids of the z messages: logged while the device rejects writes *)
 let fault_ids (s : string) : int list =
   if s = "-" || s = "" then [] else
@@ -63,17 +75,38 @@ let fault_ids (s : string) : int list =
     let body = String.sub it 1 (String.length it - 1) in
     match String.split_on_char '*' body with
     | [_; cnt] -> List.init (int_of_string cnt) (fun _ -> t)
-    | _ -> [t]) (List.filter (fun it -> it <> "" && it.[0] <> 'f') (String.split_on_char ',' s)) in
+    | _ -> [t]) (List.filter is_msg_item (String.split_on_char ',' s)) in
   List.concat (List.mapi (fun i t -> if t = 'z' then [i] else []) raw)
-let parse_msgs (s : string) : (mtype * int) list =
-  if s = "-" || s = "" then [] else
-  let raw = List.concat_map (fun it ->
-    let t = it.[0] in
-    let body = String.sub it 1 (String.length it - 1) in
-    match String.split_on_char '*' body with
-    | [sz; cnt] -> List.init (int_of_string cnt) (fun _ -> (t, int_of_string sz))
-    | _ -> [(t, int_of_string body)]) (List.filter (fun it -> it <> "" && it.[0] <> 'f') (String.split_on_char ',' s)) in
-  List.mapi (fun i (t, sz) -> (ty_of i t, sz)) raw
+let rec nat_of_int n = if n <= 0 then O else S (nat_of_int (n - 1))
+(* <op><path>:<arg>   path = handler indices joined by '.', arg = subtree letters (+ ^) / handler index (~) / empty (!) *)
+let parse_op (it : string) : op =
+  let body = String.sub it 1 (String.length it - 1) in
+  let path, arg = match String.index_opt body ':' with
+    | Some i -> String.sub body 0 i, String.sub body (i + 1) (String.length body - i - 1)
+    | None -> body, "" in
+  let path = List.map (fun x -> nat_of_int (int_of_string x)) (List.filter (fun x -> x <> "") (String.split_on_char '.' path)) in
+  match it.[0] with
+  | '+' | '^' -> (match parse_items arg with [h] -> OAppend (path, h) | _ -> failwith "one handler per append")
+  | '~' -> ORemove (path, nat_of_int (int_of_string arg))
+  | _ -> OClearSinks path
+(* the whole history: messages get ids 0,1,..; f = explicit flush(); + ^ ~ ! = reconfigurations *)
+let parse_events (s : string) : event list * int =
+  if s = "-" || s = "" then [], 0 else
+  let items = List.filter (fun it -> it <> "") (String.split_on_char ',' s) in
+  let id = ref 0 in
+  let evs = List.concat_map (fun it ->
+    if it.[0] = 'f' then [EFlush]
+    else if is_op_item it then [EOp (parse_op it)]
+    else begin
+      let t = it.[0] in
+      let body = String.sub it 1 (String.length it - 1) in
+      let sz, cnt = match String.split_on_char '*' body with
+        | [sz; cnt] -> int_of_string sz, int_of_string cnt
+        | _ -> int_of_string body, 1 in
+      List.init cnt (fun _ -> let i = !id in incr id;
+        EMsg (ty_of i t, { rid = n_of_int i; rlen = n_of_int (sz + 1) }))
+    end) items in
+  evs, !id
 let ranges (l : int list) : string =
   let b = Buffer.create 64 in
   let flush_run a z = (if Buffer.length b > 0 then Buffer.add_char b ',');
@@ -87,13 +120,25 @@ let unranges (s : string) : int list =
   List.concat_map (fun it -> match String.split_on_char '-' it with
     | [a; z] -> let a = int_of_string a and z = int_of_string z in List.init (max 0 (z - a + 1)) (fun i -> a + i)
     | _ -> [int_of_string it]) (String.split_on_char ',' s)
-let show (res : n list option list) : string =
-  String.concat ";" (List.map (function None -> "X" | Some f -> ranges (List.map int_of_n f)) res)
-let unshow (s : string) : n list option list =
-  List.map (fun f -> if f = "X" then None else Some (List.map n_of_int (unranges f))) (String.split_on_char ';' s)
+(* output / input: one field per sink ID (creation order), separated by ';':
+     record ids as ranges | X = sink on a device that keeps nothing | G = sink no longer in the configuration *)
+let show_by_sid (sids : n list) (res : n list option list) : string =
+  let tab = List.combine (List.map int_of_n sids) res in
+  String.concat ";" (List.init !next_sid (fun k ->
+    match List.assoc_opt k tab with
+    | None -> "G"
+    | Some None -> "X"
+    | Some (Some f) -> ranges (List.map int_of_n f)))
+let unshow_by_sid (sids : n list) (s : string) : n list option list =
+  let fields = Array.of_list (String.split_on_char ';' s) in
+  List.map (fun sd -> let k = int_of_n sd in
+    if k >= Array.length fields then None else
+    let f = fields.(k) in
+    if f = "X" || f = "G" then None else Some (List.map n_of_int (unranges f))) sids
 let () =
   let mode = if Array.length Sys.argv > 1 then Sys.argv.(1) else "model" in
-  if mode = "cfg" then Printf.printf "cfg_good=%b flush_on_fatal=%b\n" src_cfg_good flush_on_fatal else
+  if mode = "cfg" then Printf.printf "cfg_good=%b flush_on_fatal=%b nothread_cfg_good=%b flush_on_fatal_nothread=%b\n"
+      src_cfg_good flush_on_fatal nth_cfg_good flush_on_fatal_nothread else
   try while true do
     let line = input_line stdin in
     let scen, files = match String.index_opt line '|' with
@@ -101,17 +146,21 @@ let () =
       | None -> line, "" in
     match List.filter (fun x -> x <> "") (String.split_on_char ' ' scen) with
     | [tr; en; ms; fs] ->
-      let t = parse_tree tr in
-      let msgs = List.mapi (fun i (ty, sz) -> (ty, { rid = n_of_int i; rlen = n_of_int (sz + 1) })) (parse_msgs ms) in
-      let k = List.length msgs in
-      let fatal = { rid = n_of_int k; rlen = n_of_int (int_of_string fs + 1) } in
-      (* the harness flushes before a z message, so nothing is buffered: the rejected write loses the record iff it
-         goes straight to the device (block larger than QFile's 16 KiB chunk); a smaller one is only buffered *)
-      let zs = fault_ids ms in
-      let rej _ (r : rec0) = List.mem (int_of_n r.rid) zs && int_of_n r.rlen > 16384 in
-      if mode = "oracle" then
-        print_endline (if prop_c11_b rej t msgs fatal (unshow files) then "1" else "0")
-      else if mode = "expected" then print_endline (show (expected_ids rej t msgs fatal))
-      else print_endline (show (if en = "kill" then run_src_kill rej t msgs else run_src_fatal rej t msgs fatal))
+      (try
+        let t = parse_tree tr in
+        let evs, k = parse_events ms in
+        let fatal = { rid = n_of_int k; rlen = n_of_int (int_of_string fs + 1) } in
+        (* the harness flushes before a z message, so nothing is buffered: the rejected write loses the record iff it
+           goes straight to the device (block larger than QFile's 16 KiB chunk); a smaller one is only buffered *)
+        let zs = fault_ids ms in
+        let rej _ (r : rec0) = List.mem (int_of_n r.rid) zs && int_of_n r.rlen > 16384 in
+        let sids = final_sids rej t evs in
+        if mode = "oracle" then
+          print_endline (if prop_c11_ev_b rej t evs fatal (unshow_by_sid sids files) then "1" else "0")
+        else if mode = "expected" then print_endline (show_by_sid sids (expected_ids rej t evs fatal))
+        else if mode = "model-nth" then
+          print_endline (show_by_sid sids (if en = "kill" then run_nth_kill rej t evs else run_nth_fatal rej t evs fatal))
+        else print_endline (show_by_sid sids (if en = "kill" then run_src_kill rej t evs else run_src_fatal rej t evs fatal))
+      with Failure _ | Invalid_argument _ | Not_found -> print_endline "?")
     | _ -> print_endline "?"
   done with End_of_file -> ()
